@@ -855,6 +855,7 @@ coap_oscore_decrypt_pdu(coap_session_t *session,
   int rsp_last_seq_raised = 0;
   int rsp_seq_validated = 0;
   coap_bin_const_t rsp_partial_iv = { 0, NULL };
+  oscore_association_t *refresh_association = NULL;
   uint8_t rsp_partial_iv_data[8];
   coap_bin_const_t pdu_token;
   uint8_t *st_encrypt;
@@ -1224,22 +1225,13 @@ coap_oscore_decrypt_pdu(coap_session_t *session,
      */
     association = oscore_find_association(session, &pdu_token);
     if (association) {
-      /* Refresh the association */
-      coap_delete_bin_const(association->nonce);
-      association->nonce =
-          coap_new_bin_const(cose->nonce.s, cose->nonce.length);
-      if (association->nonce == NULL)
-        goto error;
-      coap_delete_bin_const(association->partial_iv);
-      association->partial_iv =
-          coap_new_bin_const(cose->partial_iv.s, cose->partial_iv.length);
-      if (association->partial_iv == NULL)
-        goto error;
-      coap_delete_bin_const(association->aad);
-      association->aad = coap_new_bin_const(cose->aad.s, cose->aad.length);
-      if (association->aad == NULL)
-        goto error;
-      association->recipient_ctx = rcp_ctx;
+      /*
+       * Refreshed further down, once this request has been verified: the
+       * association may belong to an observation, and an unauthenticated
+       * request naming its token must not change what the notifications are
+       * protected with.
+       */
+      refresh_association = association;
     } else if (!oscore_new_association(session,
                                        NULL,
                                        &pdu_token,
@@ -1440,6 +1432,25 @@ coap_oscore_decrypt_pdu(coap_session_t *session,
   }
 
   assert((size_t)pltxt_size < pdu->alloc_size + pdu->max_hdr_size);
+
+  if (refresh_association) {
+    /* Refresh the association */
+    coap_delete_bin_const(refresh_association->nonce);
+    refresh_association->nonce =
+        coap_new_bin_const(cose->nonce.s, cose->nonce.length);
+    if (refresh_association->nonce == NULL)
+      goto error;
+    coap_delete_bin_const(refresh_association->partial_iv);
+    refresh_association->partial_iv =
+        coap_new_bin_const(cose->partial_iv.s, cose->partial_iv.length);
+    if (refresh_association->partial_iv == NULL)
+      goto error;
+    coap_delete_bin_const(refresh_association->aad);
+    refresh_association->aad = coap_new_bin_const(cose->aad.s, cose->aad.length);
+    if (refresh_association->aad == NULL)
+      goto error;
+    refresh_association->recipient_ctx = rcp_ctx;
+  }
 
   /* Appendix B.2 Trap */
   if (session->b_2_step == COAP_OSCORE_B_2_STEP_2) {
